@@ -258,6 +258,19 @@ def check_C17(chk, tier, seed):
                           dict(case=c, impl=short(im), model=short(mobs)))
         if i % max(1, len(cases) // 6) == 0:
             chk.sample(dict(case=c, impl=im, model=mobs))
+    # Time values once more in a process whose local time zone is not UTC (TZ=EST5EDT: five hours off, daylight saving gaps and
+    # folds): the wire carries seconds since 1900-01-01 00:00:00 UTC, wherever the process runs
+    tcases = [c for c in cases if c.startswith("LEAFDEC time ")][::3] + [c for c in cases if c.startswith("LEAFENC time ")]
+    timpl = core.run_sharded([eng.harness, "codec"], eng.prelude, tcases, timeout=600, env=dict(core.ENV, TZ="EST5EDT"))
+    ref = dict(zip(cases, impl))
+    for c, im in zip(tcases, timpl):
+        chk.case("TZ " + c, True)
+        chk.count("time-under-non-UTC-zone")
+        chk.validated += 1
+        if im != ref[c]:
+            chk.violation("a Time value is decoded / encoded differently when the process's local time zone is not UTC",
+                          dict(case=c, env="TZ=EST5EDT", impl=short(im), under_utc=short(ref[c])))
+            break
     if tier == "thorough":
         sweep32(chk, eng)
     chk.rule = ("every value of every byte lane, walking ones/zeros, boundaries and random patterns for the six 4-octet and three "
@@ -316,6 +329,8 @@ def typed_by(g, m):
         table[(d["code"], d["vendor"])] = d["ty"]
 
     def ok(a):
+        if "!" in a["vendor"]:
+            return False            # the V flag the library reports disagrees with the presence of a vendor id (flagged by the engine)
         vd = None if a["vendor"] == "-" else int(a["vendor"], 16)
         ty = table.get((int(a["code"], 16), vd))
         v = a["val"]
@@ -382,7 +397,7 @@ def check_C02(chk, tier, seed):
     # decoded and compared by the implementation alone (the model's octet lists would take minutes)
     octd = [d for d in eng.dicts["g"].live() if d["ty"] == "oct" and d["vendor"] is None and 1000 <= d["code"] < 1100][0]
     utfd = [d for d in eng.dicts["g"].live() if d["ty"] == "utf" and d["vendor"] is None and 1000 <= d["code"] < 1100][0]
-    bigs = [hist_line("g", ("NEW", 272, 4, 0x80, 1, 2), [("ADDAVP", octd["code"], None, 0x40, ("L", ("octz", n)))]) for n in ([1048577, 3000001] if tier == "quick" else [1048577, 3000001, 16000000])]
+    bigs = [hist_line("g", ("NEW", 272, 4, 0x80, 1, 2), [("ADDAVP", octd["code"], None, 0x40, ("L", ("octp", n)))]) for n in ([65537, 1048577, 3000001] if tier == "quick" else [65537, 1048577, 3000001, 16000000])]
     bigs.append(hist_line("g", ("NEW", 272, 4, 0x80, 1, 2), [("ADDAVP", utfd["code"], None, 0x40, ("L", ("utf", b"a" * 1100000 + "\u00e9".encode())))]))
     big1 = core.run_sharded([eng.harness, "codec"], eng.prelude, bigs, shards=len(bigs), timeout=600)
     big_frames = [(b1[b1.rindex(" ENC ") + 5:].split()[0] if b1.startswith("R ok") and " ENC x" in b1 else None) for b1 in big1]
@@ -637,12 +652,13 @@ def check_C03(chk, tier, seed):
     fam += value_position_sweeps(eng, tier)
     # values larger than the 1 MiB the STREAM reader accepts: decode_from itself has no such limit (up to the 2^24 the wire can carry)
     gg = {d["ty"]: d for d in eng.dicts["g"].live() if d["vendor"] is None and 1000 <= d["code"] < 1100}
-    for n in ([(1 << 20) + 1] if tier == "quick" else [(1 << 20) + 1, 5 << 20]):
+    pattern = lambda n: bytes((i * 31 + 7 + i // 251) % 256 for i in range(n))        # long values whose parts cannot be confused with one another
+    for n in ([65537, 70001, (1 << 20) + 1] if tier == "quick" else [65537, 70001, (1 << 20) + 1, 5 << 20]):
         ln = 8 + n
-        big = gen.be(gg["oct"]["code"], 4) + b"\0" + gen.be(ln, 3) + bytes(n) + b"\0" * ((4 - ln % 4) % 4)
+        big = gen.be(gg["oct"]["code"], 4) + b"\0" + gen.be(ln, 3) + pattern(n) + b"\0" * ((4 - ln % 4) % 4)
         fam.append(("large-value", "g", bytes([1]) + gen.be(20 + len(big), 3) + bytes([0x80]) + gen.be(272, 3) + gen.be(4, 4) + gen.be(1, 4) + gen.be(2, 4) + big, True))
     third = 400 * 1024
-    member = gen.be(gg["oct"]["code"], 4) + b"\0" + gen.be(8 + third, 3) + bytes(third)
+    member = gen.be(gg["oct"]["code"], 4) + b"\0" + gen.be(8 + third, 3) + pattern(third)
     grp = gen.be(gg["grp"]["code"], 4) + b"\0" + gen.be(8 + 3 * len(member), 3) + member * 3
     fam.append(("large-value", "g", bytes([1]) + gen.be(20 + len(grp), 3) + bytes([0x80]) + gen.be(272, 3) + gen.be(4, 4) + gen.be(1, 4) + gen.be(2, 4) + grp, True))
     cases = [f"X {did} {xb(f)}" for (_, did, f, _) in fam]
@@ -834,6 +850,18 @@ def check_C04(chk, tier, seed):
                     chk.corr_break("decoder observation differs from the model", dict(case=c, kind=kind, impl=short(im, 2000), model=short(mobs, 2000)))
         if i % max(1, len(fam) // 6) == 0:
             chk.sample(dict(case=c, kind=kind, impl=short(im, 100)))
+    # after a program poisoned the lock of the library's process-wide DEFAULT_DICT (a malformed document loaded into it panics the
+    # loader under the write lock): frames with AVPs unknown to the dictionary they are decoded with are refused as before
+    unk = bytes([1]) + gen.be(32, 3) + bytes([0x80]) + gen.be(272, 3) + gen.be(4, 4) + gen.be(1, 4) + gen.be(2, 4) + gen.be(9999, 4) + b"\0" + gen.be(12, 3) + b"\0\0\0\1"
+    pcs = ["DGLOBALPOISON", f"X g {xb(unk)}", f"X b {xb(unk)}", f"X x {xb(unk)}"] + [c for c in cases[:40]]
+    pout = core.run_sharded([eng.harness, "codec"], eng.prelude, pcs, shards=1, timeout=300)
+    for c, o in zip(pcs[1:], pout[1:]):
+        chk.case("poisoned-global " + (c if len(c) < 4000 else core.sha(c)), True)
+        chk.count("kind:after-poisoned-global")
+        chk.validated += 1
+        if o.startswith("PANIC") or o.startswith("CRASH"):
+            chk.violation("decoder did not return (after the lock of the process-wide default dictionary had been poisoned by a failed load): " + short(o, 160), dict(case=c, impl=short(o)))
+            break
     chk.rule = ("every family of hostile frame (truncations, length-field sweeps, lies, havoc, random) over the corpus + nesting 1..70 and up to 131000 levels "
                 "(1 MiB); decoded on a 2 MiB thread in a worker process, returned messages are formatted (Display), inspected through every accessor and "
                 "re-encoded; P = the worker returned Ok or Err (no unwind, abort, hang); non-trivial = non-empty input")
@@ -877,6 +905,8 @@ def check_C05(chk, tier, seed):
             ks = sorted(set(r.shuffle(list(range(0, n)))[:160] + [0, 1, 19, 20, 21, n - 1, n, n + 1]))
         for k in ks:
             b = writer_behaviours(r, n)
+            if k % 3 == 1:
+                b = ["z"] + b          # a writer that says Ok(0) ("no room left", as a too-small &mut [u8] does) instead of failing when it is full
             cases.append(f"W {body} {hx(k)} {len(b)}" + "".join(" " + x for x in b))
             expect.append(("fault", frame, k))
     # values the wire cannot carry
